@@ -241,7 +241,7 @@ def main(tier, seed):
                rule=("every tree of the grammar (distinct by construction) x (all_resources, find_resource per resource + a stranger, "
                      "decode_address for every root address); a tree is non-trivial when it has >= 2 resources and at least one window"),
                samples=samples or [dict(note="no sample")], exhaustive=True)
-    return finish(PID, tier, seed, "exploration", cov, ASSUMPTIONS, t0, results)
+    return finish(PID, tier, seed, "exploration", cov, ASSUMPTIONS, t0, results, min_explored=int(0.6 * len(results)))
 
 
 ASSUMPTIONS = [
